@@ -32,6 +32,7 @@ def mutants(prog):
         ("compose drops u", Fm, "compose_flows", "return u.add(v)", "return v", "T4.compose"),
         ("logv compose default", Fm, "logv", "u = compose_flows(flow, u, align_corners=align_corners)", "u = compose_flows(flow, u)", "T4.logv-convention"),
         ("logv expv default", Fm, "logv", "padding=padding, align_corners=align_corners, inverse=True)", "padding=padding, inverse=True)", "T4.logv-convention"),
+        ("logv: composes with the running field instead of the given flow", Fm, "logv", "u = compose_flows(flow, u, align_corners=align_corners)", "u = compose_flows(v, u, align_corners=align_corners)", "T4.logv-iteration"),
     ]
     for name, mod, fn, old, new, expect in specs:
         ov = source_sub(prog, mod, fn, old, new)
